@@ -667,6 +667,32 @@ func genC04(g *Gen, emit func(g *Gen, p addchain.Program), maxLen, sample7 int) 
 		g.Count("search-very-long")
 	}
 
+	// values just above a machine word whose low word is a small value or an all-ones run: 2^k + v for
+	// k around 64 and 128 (a name derived from a truncated word collides with the real small value's)
+	for _, k := range []int{63, 64, 65, 66, 127, 128} {
+		for _, small := range [][]addchain.Op{
+			{{I: 0, J: 0}},               // 2
+			{{I: 0, J: 0}, {I: 1, J: 0}}, // 2, 3
+			{{I: 0, J: 0}, {I: 1, J: 0}, {I: 2, J: 2}, {I: 3, J: 0}}, // 2, 3, 6, 7
+		} {
+			p := addchain.Program{}
+			p = append(p, small...)
+			last := len(p) // index of the largest small value
+			// a doubling run from 1 up to 2^k: 1 is index 0; start the run from index 1 (= 2)
+			cur := 1
+			for e := 1; e < k; e++ {
+				p = append(p, addchain.Op{I: cur, J: cur})
+				cur = len(p)
+			}
+			// 2^k + (largest small value), then a doubling of it, then + 1
+			p = append(p, addchain.Op{I: cur, J: last})
+			p = append(p, addchain.Op{I: len(p), J: len(p)})
+			p = append(p, addchain.Op{I: len(p), J: 0})
+			emit(g, p)
+			g.Count("above-word")
+		}
+	}
+
 	// programs in the style of the runs algorithms (names x<n>)
 	for i := 0; i < g.pick(300, 2000); i++ {
 		emit(g, c04Runs(g, 6+g.R.Intn(20)))
